@@ -195,7 +195,25 @@ func (x *g) commentText(b *builder, kind string, quotaFree bool) {
 			b.add("(", x.word())
 		case 5:
 			if quotaFree {
-				b.add(x.pick("(", " ("), x.pick("a", " a"), x.pick(" b", ".b", " ", "@c.d"), ")")
+				if x.p(2) {
+					b.add(" ")
+				}
+				b.add("(")
+				if x.p(3) {
+					b.add(" ")
+				}
+				b.add("a")
+				switch x.r.Intn(4) {
+				case 0:
+					b.add(" ", "b")
+				case 1:
+					b.add(".b")
+				case 2:
+					b.add(" ")
+				default:
+					b.add("@c.d")
+				}
+				b.add(")")
 			}
 		case 6:
 			if quotaFree {
